@@ -1,6 +1,7 @@
 package tree
 
 import (
+	"regexp"
 	"strconv"
 	"strings"
 
@@ -128,6 +129,8 @@ func (cs *CommandStatement) split(str string) []*CommandStatementElement {
 	return elements
 }
 
+var commandNumberRegexp = regexp.MustCompile(`^-?[0-9]+(\.[0-9]+)?$`)
+
 func valueFromCommandText(commandText string) *variable.Value {
 	if commandText == "true" {
 		return variable.NewBoolean(true)
@@ -135,12 +138,12 @@ func valueFromCommandText(commandText string) *variable.Value {
 		return variable.NewBoolean(false)
 	}
 
-	if commandText[0] == '+' { // see Antlr grammar, numbers don't start with + even though Go would be happy to parse them
-		return variable.NewString(commandText)
-	}
-	numberValue, err := strconv.ParseFloat(commandText, 64)
-	if err == nil {
-		return variable.NewNumber(numberValue)
+	// see the NUMBER rule of the Antlr grammar: only plain decimal literals are numbers,
+	// even though Go would be happy to parse "+5", "1e3", ".5", "5.", "0x1p4", "1_000", "inf" or "nan"
+	if commandNumberRegexp.MatchString(commandText) {
+		if numberValue, err := strconv.ParseFloat(commandText, 64); err == nil {
+			return variable.NewNumber(numberValue)
+		}
 	}
 	return variable.NewString(commandText)
 }
